@@ -128,6 +128,34 @@ theorem C19_transport (nsPort nsPort' : Nat) (s : Text) (u : Uri) (order : List 
     parse Guards.on nsPort' (channel (render u order)) = .ok u := by
   rw [hch]; exact C19_roundtrip nsPort nsPort' s u order h ho
 
+/-- the uris a history assigns are valid (each came out of the parser / of `resolve`) -/
+def OpsValid : List ProxyOp → Prop
+  | [] => True
+  | .setUri v :: r => Valid v ∧ OpsValid r
+  | _ :: r => OpsValid r
+
+/-- **C19_proxy_history.**  Along every history of a proxy — sent through a serializer, copied, its uri
+    replaced (bind), in any order and number — each delivered proxy holds exactly the uri that was current
+    when it was sent/copied (never an earlier one), for every tag iteration order and receiver NS_PORT. -/
+theorem C19_proxy_history (nsPort' : Nat) (orderOf : Uri → List Text) (ho : ∀ w, OrderOK w (orderOf w)) :
+    ∀ (ops : List ProxyOp) (u : Uri), Valid u → OpsValid ops →
+      proxyRun Guards.on nsPort' orderOf u ops = (proxyExpect u ops).map Except.ok := by
+  intro ops
+  induction ops with
+  | nil => intro u _ _; rfl
+  | cons op r ih =>
+    intro u hu hv
+    cases op with
+    | send =>
+      simp only [proxyRun, proxyExpect, List.map_cons, proxyFromState, proxyStateText]
+      rw [C19_reparse u hu (orderOf u) (ho u) nsPort', ih u hu hv]
+    | copy =>
+      simp only [proxyRun, proxyExpect, List.map_cons, proxyFromState, proxyStateText]
+      rw [C19_reparse u hu (orderOf u) (ho u) nsPort', ih u hu hv]
+    | setUri v =>
+      simp only [proxyRun, proxyExpect]
+      exact ih v hv.1 hv.2
+
 /-- **C19_int_roundtrip.**  The modelled `int()` reads back every port that `"%d"` prints
     (the law of the external `int`/`%d` pair used by the theorems above, proved for the model). -/
 theorem C19_int_roundtrip (p : Int) : pyInt (renderInt p) = some p := pyInt_renderInt p
@@ -178,7 +206,10 @@ theorem C19_roundtrip_unguarded_false : ¬ RoundTripStatement Guards.off := by
 /-- **C19_gen_facts.**  The source still has the shape the model was written from: the two regular
     expressions (no flags), the guard conditions of `__init__` / `_parseLocation` in order — including the
     two guards of fixes/C19-reparse.patch —, the prefix/partition literals, the state tuple, `__eq__` and
-    `__hash__` over it, and the default NS_PORT. -/
+    `__hash__` over it, the default NS_PORT; and the proxy state path of client.py that `C19_transport` /
+    `C19_proxy_history` model: `__getstate__` is one statement whose first slot is `str(self._pyroUri)`,
+    `_pyroUri` is the only uri-related attribute and is written only by `__init__`, `__setstate__`
+    (`core.URI(state[0])`) and the connection code, and `__copy__` goes through the same state pair. -/
 theorem C19_gen_facts :
     Pyro.Gen.C19.uriRegex = "(?P<protocol>[Pp][Yy][Rr][Oo][a-zA-Z]*):(?P<object>\\S+?)(@(?P<location>.+))?$" ∧
     Pyro.Gen.C19.uriRegexFlags = 32 ∧
@@ -192,6 +223,11 @@ theorem C19_gen_facts :
     Pyro.Gen.C19.eqReturns = ["self.__getstate__() == other.__getstate__()", "False"] ∧
     Pyro.Gen.C19.hashReturn = "hash(self.__getstate__())" ∧
     Pyro.Gen.C19.nsPortDefault = 9090 ∧
+    Pyro.Gen.C19.proxyStateHead = "str(self._pyroUri)" ∧
+    Pyro.Gen.C19.proxyGetstateStmts = 1 ∧
+    Pyro.Gen.C19.proxyUriWriters = ["__init__ _pyroUri = uri", "__pyroCreateConnection _pyroUri = uri",
+      "__setstate__ _pyroUri = core.URI(state[0])"] ∧
+    Pyro.Gen.C19.proxyCopyUsesState = true ∧
     (⟨Pyro.Gen.C19.guardHost, Pyro.Gen.C19.guardTags⟩ : Guards) = Guards.on := by
   decide
 
@@ -223,6 +259,12 @@ example : parse Guards.on 9090 [80, 89, 82, 79, 78, 65, 77, 69, 58, 110, 115, 64
     = .ok ⟨.pyroname [110, 115], .sock [47, 116, 109, 112, 47, 115]⟩ := by decide
 example : parse Guards.on 9090 [80, 89, 82, 79, 58, 97, 64, 104, 58, 32, 43, 53, 95, 48, 32]
     = .ok ⟨.pyro [97], .tcp [104] 50⟩ := by decide
+
+/-- a history: send, bind to "PYRO:obj@localhost:55", copy, send — the PYROMETA uri is delivered once, the PYRO uri twice -/
+example : proxyRun Guards.on 1 Uri.tagOrder exMetaUri
+      [.send, .setUri ⟨.pyro [111, 98, 106], .tcp [108, 111, 99, 97, 108, 104, 111, 115, 116] 55⟩, .copy, .send]
+    = [.ok exMetaUri, .ok ⟨.pyro [111, 98, 106], .tcp [108, 111, 99, 97, 108, 104, 111, 115, 116] 55⟩,
+       .ok ⟨.pyro [111, 98, 106], .tcp [108, 111, 99, 97, 108, 104, 111, 115, 116] 55⟩] := by decide
 
 /-- equal / unequal, hashable / unhashable -/
 example : eqUri ⟨.pyro [97], .tcp [104] 50⟩ ⟨.pyro [97], .tcp [104] 51⟩ = false := by decide
